@@ -162,9 +162,22 @@ func DiskStateDiff(a, b *simdb.Disk, h uint64, eventHeights []uint64, withEvents
 	}
 	if withEvents {
 		sa, sb := eventsdb.NewEventsStore(a.Store("events")), eventsdb.NewEventsStore(b.Store("events"))
+		load := func(st eventsdb.IEventsDB, h uint64) (out []byte, perr string) {
+			defer func() {
+				if r := recover(); r != nil {
+					perr = fmt.Sprint(r)
+				}
+			}()
+			out, _ = tmjson.Marshal(st.LoadEvents(uint32(h)))
+			return
+		}
 		for _, eh := range eventHeights {
-			x, _ := tmjson.Marshal(sa.LoadEvents(uint32(eh)))
-			y, _ := tmjson.Marshal(sb.LoadEvents(uint32(eh)))
+			x, px := load(sa, eh)
+			y, py := load(sb, eh)
+			if px != "" || py != "" {
+				// stored events that cannot be loaded back are a durable-state difference, not a harness problem
+				return "events-unloadable", fmt.Sprintf("loading the stored events of height %d panics: reference %q, subject %q", eh, px, py)
+			}
 			if !bytes.Equal(x, y) {
 				return "events", fmt.Sprintf("events of height %d differ: %.300s vs %.300s", eh, x, y)
 			}
